@@ -179,4 +179,97 @@ theorem distinct_of_bool {b : Book V} (h : Spec.distinctKeys b = true) : Distinc
     intro v' hm
     exact h.1 (k, v') hm rfl
 
+/-! ### membership after an update -/
+
+theorem mem_set {b : Book V} {k : String} {v : V} {kv : String × V} (h : kv ∈ b.set k v) :
+    kv = (k, v) ∨ kv ∈ b := by
+  induction b with
+  | nil => simp [Book.set] at h; exact Or.inl h
+  | cons hd t ih =>
+    obtain ⟨k', v'⟩ := hd
+    unfold Book.set at h
+    by_cases hk : k' = k
+    · simp only [hk, if_true, List.mem_cons] at h
+      rcases h with h | h
+      · exact Or.inl h
+      · exact Or.inr (List.mem_cons_of_mem _ h)
+    · simp only [hk, if_false, List.mem_cons] at h
+      rcases h with h | h
+      · exact Or.inr (by rw [h]; exact List.mem_cons_self)
+      · rcases ih h with h | h
+        · exact Or.inl h
+        · exact Or.inr (List.mem_cons_of_mem _ h)
+
+theorem mem_del {b : Book V} {k : String} {kv : String × V} (h : kv ∈ b.del k) : kv ∈ b ∧ kv.1 ≠ k := by
+  induction b with
+  | nil => simp [Book.del] at h
+  | cons hd t ih =>
+    obtain ⟨k', v'⟩ := hd
+    unfold Book.del at h
+    by_cases hk : k' = k
+    · simp only [hk, if_true] at h
+      exact ⟨List.mem_cons_of_mem _ (ih h).1, (ih h).2⟩
+    · simp only [hk, if_false, List.mem_cons] at h
+      rcases h with h | h
+      · subst h; exact ⟨List.mem_cons_self, hk⟩
+      · exact ⟨List.mem_cons_of_mem _ (ih h).1, (ih h).2⟩
+
+theorem mem_set_key {b : Book V} {k : String} {v : V} {kv : String × V} (h : kv ∈ b.set k v)
+    (hne : kv.1 ≠ k) : kv ∈ b := by
+  rcases mem_set h with h | h
+  · subst h; exact absurd rfl hne
+  · exact h
+
+theorem distinct_del {b : Book V} (k : String) (h : Distinct b) : Distinct (b.del k) := by
+  induction b with
+  | nil => trivial
+  | cons hd t ih =>
+    obtain ⟨k', v'⟩ := hd
+    obtain ⟨hn, ht⟩ := h
+    unfold Book.del
+    by_cases hk : k' = k
+    · simp only [hk, if_true]; exact ih ht
+    · simp only [hk, if_false]
+      exact ⟨fun v hm => hn v (mem_del hm).1, ih ht⟩
+
+theorem distinct_set {b : Book V} (k : String) (v : V) (h : Distinct b) : Distinct (b.set k v) := by
+  induction b with
+  | nil => exact ⟨(fun _ hm => by cases hm), trivial⟩
+  | cons hd t ih =>
+    obtain ⟨k', v'⟩ := hd
+    obtain ⟨hn, ht⟩ := h
+    unfold Book.set
+    by_cases hk : k' = k
+    · subst hk; simp only [if_true]; exact ⟨hn, ht⟩
+    · simp only [hk, if_false]
+      refine ⟨fun v2 hm => ?_, ih ht⟩
+      rcases mem_set hm with h | h
+      · simp only [Prod.mk.injEq] at h; exact hk h.1
+      · exact hn v2 h
+
+theorem bool_of_distinct {b : Book V} (h : Distinct b) : Spec.distinctKeys b = true := by
+  induction b with
+  | nil => rfl
+  | cons hd t ih =>
+    obtain ⟨k, v⟩ := hd
+    obtain ⟨hn, ht⟩ := h
+    unfold Spec.distinctKeys
+    simp only [Bool.and_eq_true, List.all_eq_true, bne_iff_ne, ne_eq]
+    refine ⟨fun kv hm he => ?_, ih ht⟩
+    apply hn kv.2
+    rw [← he]; exact hm
+
+theorem mem_get? {b : Book V} (hd : Distinct b) {k : String} {v : V} (h : (k, v) ∈ b) : b.get? k = some v := by
+  induction b with
+  | nil => cases h
+  | cons hd' t ih =>
+    obtain ⟨k', v'⟩ := hd'
+    obtain ⟨hn, ht⟩ := hd
+    rw [get?_cons]
+    rcases List.mem_cons.mp h with h | h
+    · simp only [Prod.mk.injEq] at h; simp [h.1, h.2]
+    · by_cases hk : k' = k
+      · subst hk; exact absurd h (hn v)
+      · simp only [hk, if_false]; exact ih ht h
+
 end Ats.Book
